@@ -286,7 +286,7 @@ def _delta_T(order, width, mode, extra):
         tmin = P + 1
     elif P and mode == "circular":
         tmin = P
-    return sorted(set([tmin, tmin + 1, max(tmin, P + 2)] + extra))
+    return sorted(set([tmin, tmin + 1, max(tmin, P + 2)] + [t for t in extra if _pad_defined(t, P, mode)]))
 
 
 def _layouts(D):
@@ -334,7 +334,11 @@ def cases_deltas(ctx):
 # C18.mvn.partition / C18.mvn.raises
 
 LAYOUTS = ["kF", "Fk", "1kF", "kF1", "aFb", "F"]
-GARBAGE = [[100.0, -50.0, 25.0], [7.0, 7.5, -8.0], [-3.0, 0.25, 11.0]]
+
+
+def _garbage(F):
+    """three frames unrelated to any case's data (an estimate that is stored and deleted before the real history starts)"""
+    return [[100.0 - 37.0 * f + 11.5 * i * i for f in range(F)] for i in range(3)]
 
 
 def _block_tensor(frames, F, lay, dt):
@@ -441,7 +445,7 @@ def check_mvn_hist(case):
         return [_block_tensor(frames, F, lay, dt)[0]]
 
     if variant == "restart":  # an estimate that was stored and deleted must not leak into the next one
-        for t in tensors([g[:F] for g in GARBAGE]):
+        for t in tensors(_garbage(F)):
             mvn.accumulate(t)
         mvn.store(delete_stats=True, bessel=False)
     seen = []
@@ -572,7 +576,7 @@ def cases_mvn_partition(ctx):
                         for variant in ("none", "mid", "empty", "restart"):
                             if variant == "mid" and len(blocks[0]) == 1 and not bessel:
                                 continue  # a one-frame estimate without Bessel's correction is the subject of C18.mvn.raises
-                            if n >= 5:  # the three data families and the four history variants cycle instead of multiplying
+                            if n >= 5:  # the three data families and the history variants cycle instead of multiplying
                                 i += 1
                                 if (i % 4) != ("none", "mid", "empty", "restart").index(variant):
                                     continue
@@ -592,8 +596,12 @@ def cases_mvn_partition(ctx):
                 blocks.append(idx[:c])
                 idx = idx[c:]
             lay = rng.choice(LAYOUTS[:-1])
-            yield {"F": F, "data": _mvn_data(n, F, rng.choice("ABCD") if F > 1 else rng.choice("AC"), rng), "blocks": blocks, "lay": lay, "bessel": rng.random() < 0.5,
-                   "dtype": rng.choice(["f32", "f64"]), "variant": rng.choice(["none", "mid", "empty", "restart"]), "delete": rng.random() < 0.5}
+            bessel = rng.random() < 0.5
+            variant = rng.choice(["none", "mid", "empty", "restart"])
+            if variant == "mid" and len(blocks[0]) == 1 and not bessel:
+                variant = "none"
+            yield {"F": F, "data": _mvn_data(n, F, rng.choice("ABCD") if F > 1 else rng.choice("AC"), rng), "blocks": blocks, "lay": lay, "bessel": bessel,
+                   "dtype": rng.choice(["f32", "f64"]), "variant": variant, "delete": rng.random() < 0.5}
 
 
 def cases_mvn_raises(ctx):
@@ -815,7 +823,7 @@ def cases_cli(ctx):
     presuf = [("", ".pt"), ("f_", ".pt"), ("", ".feat.pt")]
     i = 0
     for m in range(1, mmax + 1):
-        for ks in itertools.product(range(1, kmax + 1), repeat=m):
+        for ks in itertools.product(range(1, (kmax if m <= 3 else 2) + 1), repeat=m):
             groupings = [None] + [["g%d" % l for l in labels] for labels in _rgs(m)]
             for gids in groupings:
                 for bessel in (False, True):
@@ -922,7 +930,7 @@ def run_bounded(ctx):
                     bound=("n in 2..%d frames, EVERY ordered set partition of the frames into blocks (13/75/541%s for n=3/4/5%s), one accumulate() per block; F in {1,2,3} (n<=3) / 2; "
                            "block tensors laid out as (k,F) dim=-1, (F,k) dim=0, (1,k,F) dim=2, (k,F,1) dim=-2, (a,F,k/a) dim=1, and (F,) per frame; bessel in {F,T}; "
                            "6 data families (small integers; integers with a constant coefficient; 3-decimal reals in float32/float64; reals with a constant 0.1 coefficient); "
-                           "history variants: plain, store(delete_stats=False) after the first block, a zero-frame block, an earlier estimate stored and deleted "
+                           "history variants: plain, store(delete_stats=False) after the first block (when that block alone suffices per the documentation, or must raise), a zero-frame block, an earlier estimate stored and deleted "
                            "(n<=4: full product; n>=5: data family and variant cycle)%s") % (
                         5 if q else 6, "" if q else "/4683", "" if q else "/6", "" if q else "; + 30000 seeded random histories n<=40, F<=6"),
                     text="stored mean/std = pooled mean and population/Bessel std computed exactly over the rationals from the frames; normalising the pooled frames gives mean 0 and variance 1 "
@@ -962,7 +970,7 @@ def run_bounded(ctx):
                     functions=["_rl.time_distributed_return", "_rl.TimeDistributedReturn.forward"])
     if want("C18.cli.mvn"):
         ctx.bounded("C18.cli.mvn", check_cli, cases_cli(ctx),
-                    bound="1..%d files with every combination of 1..3 frames each, no --id2gid or EVERY partition of the files into groups, --bessel on/off, file tensors (k,F)/--dim=-1, (F,k)/--dim=0, "
+                    bound="1..%d files with every combination of 1..3 frames each (1..2 for 4 files), no --id2gid or EVERY partition of the files into groups, --bessel on/off, file tensors (k,F)/--dim=-1, (F,k)/--dim=0, "
                           "(1,k,F)/--dim=2, 3 (prefix, suffix) pairs, F in 1..3, float32/float64, non-matching files present in every third case; --num-workers 0%s" % (
                               (3, "") if q else (4, "; + 4000 seeded random directories with <= 8 files")),
                     text="the command writes {'mean','std'} (nested per group with --id2gid) equal to the pooled statistics of exactly the frames of the matching files of each group",
